@@ -22,7 +22,7 @@ from bind import c15
 
 PROP = "C02"
 
-MAIN_GROUPS = ["core", "core2", "defnames", "targets", "comp", "calls", "decoys", "modules"]
+MAIN_GROUPS = ["core", "nest", "core2", "defnames", "targets", "comp", "calls", "decoys", "modules"]
 FEATURE_GROUPS = ["params", "stmts", "walrus", "lambda"]
 
 _ROOT = None
@@ -143,12 +143,18 @@ def causes_for(prog, q, t):
             # compares imported names by what they import (occurrences.same_pyname)
             return ["same-object-imported-in-two-scopes"]
     c = None
+    found = []
     for e in (t, q):
         # the scope Python resolves the token in, and the scope it is written in
         for sc in sorted({token_scope(prog, e), e["s"]}):
             c = c15.cause_of(prog, sc, e["n"], e["b"])
             if not c.startswith("by:"):
-                return [c]
+                found.append(c)
+    if found:
+        # a bare declaration is the least specific description: prefer the block that
+        # also rebinds the name
+        found.sort(key=lambda c: c in ("global-decl:no-binder", "nonlocal-decl-only"))
+        return [found[0]]
     # binders of the feature groups (constructs rope has no visitor for) that take part
     # in either binding: the deviation is attributed to each of them
     ops = {q["op"], t["op"]}
@@ -262,7 +268,10 @@ def main(tier):
     verdict = common.Verdict(PROP)
     rnd = common.rng("c02")
     groups = MAIN_GROUPS + FEATURE_GROUPS
-    per_group_quick = 2000
+    per_group_cap = 2000 if tier == "quick" else 25000      # thorough: a cap keeps the run inside its budget
+    if os.environ.get("PYSCOPE_CAP"):      # development aid: replay everything / another cap
+        per_group_cap = int(os.environ["PYSCOPE_CAP"])
+    capped = []
     tlc_stats = {}
     items = []
     states = transitions = 0
@@ -291,8 +300,9 @@ def main(tier):
         transitions += res.generated
         progs = [p for p in progs if any(e["det"] for e in p["ev"])]      # something to ask about
         progs.sort(key=lambda x: json.dumps(x, sort_keys=True))
-        if tier == "quick" and len(progs) > per_group_quick:
-            progs = rnd.sample(progs, per_group_quick)
+        if len(progs) > per_group_cap and not (tier == "quick" and ps.GROUPS[g].get("replay_all")):
+            capped.append("%s: %d of %d" % (g, per_group_cap, len(progs)))
+            progs = rnd.sample(progs, per_group_cap)
         for k, p in enumerate(progs):
             if k % 499 == 7:
                 p["_sample"] = True
@@ -337,7 +347,8 @@ def main(tier):
         "states": states, "transitions": transitions,
         "traces_validated_against_impl": replayed,
         "samples": samples or [{"note": "no sampled program"}],
-        "exhaustive": tier == "thorough",
+        "exhaustive": tier == "thorough" and not capped,
+        "sampled_groups": capped,
         "distinct_nontrivial": nontrivial,
         "rule": "one abstract program per reachable well-formed TLC state with at least one determined name token, "
                 "per feature group; find_occurrences asked at every determined token; non-trivial = some answer "
